@@ -1,7 +1,7 @@
 (* Entry.v — single extracted entry point [run]: request = VList [VStr name; arg].
    All marshalling is done here in Gallina so that ocaml/driver.ml stays generic. *)
 From Coq Require Import ZArith List Bool String Ascii.
-From Verif Require Import PyStr Normalize NormalizeGen Util UtilGen Toc TocGen.
+From Verif Require Import PyStr Normalize NormalizeGen Util UtilGen Toc TocGen Footnote FootnoteGen.
 Import ListNotations.
 Open Scope Z_scope.
 
@@ -57,6 +57,15 @@ Definition run_named (name : str) (arg : pval) : pval :=
       VList (map (fun it : nat * nat * nat =>
                     VList [vnat (fst (fst it)); vnat (snd (fst it)); VStr (toc_id toc_id_prefix (snd it))])
                  (hook_items range tokens))
+    | _ => VErr "arg" end
+  else if is_name name "fn_number" then
+    match arg with
+    | VList [VList defs; VList hist] =>
+      let strs := fun l => flat_map (fun v => match v with VStr s => [s] | _ => [] end) l in
+      let d := strs defs in
+      let '(ts, notes) := run_refs str str_eqb (fun k => existsb (str_eqb k) d) [] (strs hist) in
+      VList [VList (map (fun t => match t with Some n => vnat n | None => VNone end) ts); vstrs notes;
+             VList [VStr (fs_ref_id fn_S); VStr (fs_ref_href fn_S); VStr (fs_item_id fn_S); VStr (fs_item_back fn_S)]]
     | _ => VErr "arg" end
   else VErr "unknown function".
 
